@@ -82,6 +82,7 @@ class TdmsWriter(object):
         self._tdms_version = version
         self._root_written = False
         self._groups_written = set()
+        self._channel_types = {}
 
         if hasattr(file, "read"):
             # Is a file
@@ -146,6 +147,16 @@ class TdmsWriter(object):
         path_object_pairs.sort(key=lambda p: _path_ordering_key(p[0]))
 
         objects = [p[1] for p in path_object_pairs]
+
+        # A TDMS channel has a single data type, files where this changes between segments can't be read
+        channel_types = dict((o.path, o.data_type) for o in objects if hasattr(o, 'data') and o.data_type != Void)
+        for path, data_type in channel_types.items():
+            written_type = self._channel_types.get(path, data_type)
+            if written_type != data_type:
+                raise ValueError(
+                    "Channel %s has already been written with data type %s so cannot be written with data type %s" %
+                    (path, written_type.__name__, data_type.__name__))
+
         segment = TdmsSegment(objects, version=self._tdms_version)
         segment.write(self._file)
 
@@ -156,6 +167,7 @@ class TdmsWriter(object):
         self._root_written = True
         self._groups_written.update(groups_included)
         self._groups_written.update(groups_to_add)
+        self._channel_types.update(channel_types)
 
     def __enter__(self):
         self.open()
